@@ -55,7 +55,7 @@ def check(prog, run):
     if seqsig:
         run.rule("R-order", "reference/roving split: references in listed order, roving channels ascending; global rows = references, then each "
                  "setup's roving rows in setup order", 2)
-        seqsig.order_obligations(prog, run, "R-order", which=("pre", "ssi_ms"))
+        seqsig.order_obligations(prog, run, "R-order", which=("pre", "ssi_ms", "reflists"))
 
 
 def hd_elem(v):
@@ -132,7 +132,15 @@ def interleave(prog, run):
         ob(f"{nm} map: column-major flatten (block-major row order)", m["order"] == "F", f"flatten(order='{m['order']}')", m["node"])
         ob(f"{nm} map: one index per block row used (br blocks)", m["NB"] is not None and m["NB"] == br, f"arange({m['NB']!r})", m["node"])
         wtxt = repr(m["W"]).replace(" ", "")
-        okw = m["W"] is not None and ((m["W"] - P.s("n_ref")).t and len((m["W"] - P.s("n_ref")).t) == 1 and "n_mov[" in repr(m["W"] - P.s("n_ref")) or (r_sym is not None and m["W"] == r_sym))
+        pm_ = astq.parent_map(fi.node)
+        lp_ = astq.enclosing(pm_, m["stmt"], (ast.For,))
+        kkv = lp_.target.id if lp_ is not None and isinstance(lp_.target, ast.Name) else None
+        okw = None
+        if m["W"] is not None:
+            rest_ = m["W"] - P.s("n_ref")
+            okw = (r_sym is not None and m["W"] == r_sym) or (kkv is not None and repr(rest_).replace(" ", "") == f"n_mov[{kkv}]")
+            if not okw and not ("n_mov[" in repr(rest_) or rest_.is_const() or rest_ == P()):
+                okw = None        # stride not expressed through n_ref / n_mov at all: not recognised
         ob(f"{nm} map: stride = channels of this setup (n_ref + n_mov[k])", okw, f"stride {m['W']!r}", m["node"])
     ob("reference channels = [0, n_ref)", refm["a"] == P.c(0) and refm["b"] == P.s("n_ref"), f"range({refm['a']!r}, {refm['b']!r})", refm["node"])
     okm = movm["a"] == refm["b"] and (movm["b"] == r_sym or "shape[0]" in repr(movm["b"]))
